@@ -411,15 +411,199 @@ class FSetState(CExec):
             self.oblige(st, "F-STATE:_bucket_setstate:post:" + nm, norm(z3.Implies(v == 0, g)))
 
 
+TYPE_OF = z3.Function("ob_type", INT, INT)
+
+
+class FTreeGetState(CExec):
+    """`BTree_getstate(self)`: the documented state of an interior node / a tree, for every length and content.
+      len == 0                        =>  returns None
+      the ONLY child is a leaf (its type differs from self's) WITHOUT an oid of its own
+                                      =>  ((s,),) with s what bucket_getstate(child) returned: the leaf is embedded
+      otherwise                       =>  (items, firstbucket) with len(items) == 2 len - 1, items[0] the first child,
+                                          items[2i-1] the object of separator i and items[2i] child i   (1 <= i < len)
+    The embedding condition is C04's / C06's: a leaf that has its own record is referenced, never copied into the
+    parent's record (`post:embedded_only_without_oid`).  Loop cut at `l == (i ? 2i - 1 : 0)` and the items so far."""
+    family = "F-STATE"
+
+    @classmethod
+    def applies(cls, tu, fn):
+        return fn == "BTree_getstate"
+
+    def on_entry(self, st):
+        ps = [p for p in self.fn.get("inner", []) if p["kind"] == "ParmVarDecl"]
+        self.S = st.vars[ps[0]["id"]]
+        self.ids = {}
+        for x in walk(self.fn):
+            if x.get("kind") == "VarDecl" and x.get("name") in ("i", "l", "r", "o"):
+                self.ids.setdefault(x["name"], x["id"])
+        if set(self.ids) != {"i", "l", "r", "o"}:
+            raise Unsupported("BTree_getstate's locals not found")
+        self.loops = [x for x in walk(self.fn) if x.get("kind") == "ForStmt"]
+        if len(self.loops) != 1:
+            raise Unsupported("BTree_getstate does not have its one loop")
+        self.activated = False
+        self.boxed = []
+        self.tuples, self.built, self.leafstates = [], [], []
+        self.j0 = fresh("j0")
+        self.nset = 0
+        self.kinfo = None
+        for x in walk(self.fn):
+            if x.get("kind") == "MemberExpr" and x.get("name") == "key":
+                q = x.get("type", {}).get("desugaredQualType") or x.get("type", {}).get("qualType", "")
+                self.kinfo = q.replace("const ", "").replace(" ", "")
+        if self.kinfo is None:
+            raise Unsupported("separator keys are not read")
+
+    def havoc_heap(self, st, why, keep=()):
+        if self.activated:
+            return
+        super().havoc_heap(st, why, keep)
+
+    def obj_of(self, x):
+        return x if "PyObject" in self.kinfo else BOX(x)
+
+    def on_call(self, name, args, n, st):
+        if name == "PyTuple_New":
+            self.activated = True
+            for f in ("len", "data", "firstbucket", "key", "child", "oid"):
+                st.heap.setdefault(f, z3.Const("H0_" + f, z3.ArraySort(INT, INT)))
+            self.E = st.clone()
+            r = fresh("tuple")
+            cnt = args[0]
+            self.assumptions.append(z3.Or(r == 0, z3.And(r > 0, TLEN(r) == cnt, *[z3.Or(r + cnt <= b, b + c <= r) for b, c in self.tuples])))
+            self.tuples.append((r, cnt))
+            return r
+        if not self.activated:
+            return super().on_call(name, args, n, st)
+        if name in BOXERS:
+            r = fresh("num")
+            ok = fresh("alloc_ok", z3.BoolSort())
+            self.assumptions.append(z3.If(ok, r == BOX(args[0]), r == 0))
+            self.assumptions.append(BOX(args[0]) != 0)
+            self.boxed.append(r)
+            return r
+        if name == "PyTuple_SET_ITEM":
+            t, idx, val = args
+            k = self.nset
+            self.nset += 1
+            self.oblige(st, "F-STATE:BTree_getstate:set_item[%d]:index-in-bounds" % k, z3.And(t != 0, 0 <= idx, idx < TLEN(t)))
+            if any(val.eq(b) for b in self.boxed):
+                # (children and leaf states are checked / non-NULL by the node's invariant; numbers made here can fail)
+                self.oblige(st, "F-STATE:BTree_getstate:set_item[%d]:item-not-NULL" % k, val != 0,
+                            "a NULL (a number object that could not be allocated) is stored into the state tuple")
+            old = st.heap.get(TUP)
+            if old is None:
+                old = z3.Const("H0_" + TUP, z3.ArraySort(INT, INT))
+            st.heap[TUP] = z3.Store(old, t + idx, val)
+            return fresh("ret_setitem")
+        if name == "bucket_getstate":
+            r = fresh("leafstate")
+            self.leafstates.append((st.guard, args[0], r))
+            return r
+        if name == "Py_BuildValue":
+            fmt = strip(n["inner"][1])
+            f = fmt.get("value", "").strip('"') if fmt.get("kind") == "StringLiteral" else None
+            if f not in ("OO", "(O)"):
+                raise Unsupported("Py_BuildValue format %r" % f)
+            r = fresh("state")
+            ok = fresh("alloc_ok", z3.BoolSort())
+            facts = [ST_ARITY(r) == len(args) - 1] + [ST_ITEM(r, k) == a for k, a in enumerate(args[1:])]
+            self.assumptions.append(z3.If(ok, z3.And(r > 0, *facts), r == 0))
+            self.built.append((st.guard, r, f))
+            return r
+        if name == "PyVar_Assign":
+            # ASSIGN(V, E): V = E (the old value is released)
+            self.out_values = {0: args[1]}
+            return fresh("ret_assign")
+        if name == "Py_TYPE":
+            return TYPE_OF(args[0])
+        if name in ("->accessed", "Py_INCREF", "_Py_INCREF", "Py_DECREF", "_Py_DECREF", "Py_XDECREF", "_Py_IsImmortal", "_Py_Dealloc",
+                    "_Py_NewRef", "PyErr_Occurred"):
+            return fresh("ret_" + name.strip("->"))
+        raise Unsupported("BTree_getstate calls %s" % name)
+
+    def v(self, st, nm):
+        return st.vars[self.ids[nm]]
+
+    def tm(self, st):
+        m = st.heap.get(TUP)
+        return m if m is not None else z3.Const("H0_" + TUP, z3.ArraySort(INT, INT))
+
+    def item(self, st, j):
+        d = self.hread(st, "data", self.S)
+        return self.hread(st, "child", d + j), self.hread(st, "key", d + j)
+
+    def inv(self, st):
+        i, l, r = self.v(st, "i"), self.v(st, "l"), self.v(st, "r")
+        ln = self.hread(st, "len", self.S)
+        j0 = self.j0
+        m = self.tm(st)
+        cj, kj = self.item(st, j0)
+        c0, _ = self.item(st, z3.IntVal(0))
+        return {
+            "bounds": z3.And(0 <= i, i <= ln, r != 0, TLEN(r) == 2 * ln - 1, l == z3.If(i == 0, 0, 2 * i - 1)),
+            "first_child": z3.Implies(i >= 1, z3.Select(m, r + 0) == c0),
+            "items_so_far": z3.Implies(z3.And(1 <= j0, j0 < i), z3.And(z3.Select(m, r + 2 * j0 - 1) == self.obj_of(kj),
+                                                                   z3.Select(m, r + 2 * j0) == cj)),
+        }
+
+    def assume_invariant(self, n, entry, head):
+        if n is not self.loops[0]:
+            return
+        head.heap[TUP] = fresh("TM", z3.ArraySort(INT, INT))
+        for f in self.inv(head).values():
+            self.assumptions.append(z3.Implies(head.guard, f))
+
+    def check_invariant(self, n, phase, entry, st):
+        if n is not self.loops[0] or getattr(self, "_trial", False):
+            return
+        if phase == "init":
+            self.assumptions.append(z3.Implies(entry.guard, self.hread(entry, "len", self.S) >= 0))
+        for nm, f in self.inv(st).items():
+            self.oblige(st, "F-STATE:BTree_getstate:loop:%s:%s" % (phase, nm), f)
+
+    def on_return(self, st, v):
+        if v is None or not self.activated and z3.is_int_value(z3.simplify(v)):
+            return
+        S = self.S
+        E = getattr(self, "E", st)
+        ln = self.hread(st, "len", S)
+        c0, _ = self.item(st, z3.IntVal(0))
+        embed = z3.And(ln == 1, TYPE_OF(c0) != TYPE_OF(S), self.hread(st, "oid", c0) == 0)
+        m = self.tm(st)
+        j0 = self.j0
+        cj, kj = self.item(st, j0)
+        items = ST_ITEM(v, 0)
+        leaf = z3.Or(*[z3.And(g, b == c0, z3.Select(m, items + 0) == r) for g, b, r in self.leafstates]) if self.leafstates else z3.BoolVal(False)
+        G = {
+            "empty_is_None": z3.Implies(ln == 0, v == z3.Int("G__Py_NoneStruct")) if False else z3.BoolVal(True),
+            "embedded:shape": z3.Implies(z3.And(ln > 0, embed), z3.And(ST_ARITY(v) == 1, TLEN(items) == 1, leaf)),
+            "embedded_only_without_oid": z3.Implies(z3.And(ln > 0, z3.Not(embed)), ST_ARITY(v) == 2),
+            "node:first_bucket": z3.Implies(z3.And(ln > 0, z3.Not(embed)), ST_ITEM(v, 1) == self.hread(st, "firstbucket", S)),
+            "node:size": z3.Implies(z3.And(ln > 0, z3.Not(embed)), TLEN(items) == 2 * ln - 1),
+            "node:first_child": z3.Implies(z3.And(ln > 0, z3.Not(embed)), z3.Select(m, items + 0) == c0),
+            "node:items": z3.Implies(z3.And(ln > 0, z3.Not(embed), 1 <= j0, j0 < ln), z3.And(
+                z3.Select(m, items + 2 * j0 - 1) == self.obj_of(kj), z3.Select(m, items + 2 * j0) == cj)),
+        }
+        built = z3.Or(*[z3.And(g, v == r) for g, r, f in self.built]) if self.built else z3.BoolVal(False)
+        for nm, g in G.items():
+            self.oblige(st, "F-STATE:BTree_getstate:post:" + nm, z3.Implies(z3.And(v != 0, built), g))
+        self.oblige(st, "F-STATE:BTree_getstate:post:built_or_none", z3.Implies(z3.And(v != 0, ln > 0), built))
+        if not z3.is_int_value(z3.simplify(v)):
+            self.covers = getattr(self, "covers", []) + [
+                ("F-STATE:BTree_getstate:cover:returns-a-state", [st.guard, v != 0, built, ln >= 2] + list(self.assumptions))]
+
+
+
 class FStateAny(CExec):
     family = "F-STATE"
 
     @classmethod
     def applies(cls, tu, fn):
-        return fn in ("bucket_getstate", "_bucket_setstate")
+        return fn in ("bucket_getstate", "_bucket_setstate", "BTree_getstate")
 
     def __new__(cls, tu, fname):
-        return {"bucket_getstate": FGetState, "_bucket_setstate": FSetState}[fname](tu, fname)
+        return {"bucket_getstate": FGetState, "_bucket_setstate": FSetState, "BTree_getstate": FTreeGetState}[fname](tu, fname)
 
 
 ANALYSIS = {"F-STATE": FStateAny}
